@@ -355,6 +355,24 @@ func runAliasOp(op M) (operands []aliasOperand, results []aliasOperand, note str
 		return []aliasOperand{{"list", a}}, []aliasOperand{{"copy", a.Copy()}}, ""
 	case "union", "intersect":
 		a, b := NLOf(get("a")), NLOf(get("b"))
+		switch asStr(op["share"]) {
+		case "frag":
+			// the argument is a fragment of the receiver's own list: the very same node objects, as
+			// the extraction functions return them
+			ix := map[string]*sbom.Node{}
+			for _, n := range a.Nodes {
+				if n != nil {
+					ix[n.Id] = n
+				}
+			}
+			for i, n := range b.Nodes {
+				if n != nil && ix[n.Id] != nil {
+					b.Nodes[i] = ix[n.Id]
+				}
+			}
+		case "self":
+			b = a
+		}
 		padCapacity(a, 2)
 		padCapacity(b, 2)
 		var r *sbom.NodeList
@@ -683,7 +701,28 @@ func aliasGen(g *G, tier string) []M {
 		case 5:
 			ops = append(ops, M{"op": "alias", "what": "copyNL", "a": a})
 		case 6, 7:
-			ops = append(ops, M{"op": "alias", "what": g.Pick([]string{"union", "intersect"}), "a": a, "b": b})
+			o := M{"op": "alias", "what": g.Pick([]string{"union", "intersect"}), "a": a, "b": b}
+			if g.Chance(0.3) {
+				o["share"] = g.Pick([]string{"frag", "frag", "self"})
+				// same values as well as same objects: the argument's nodes that the receiver also has
+				// are the receiver's (so the model, which sees values, is given the same operands)
+				an := map[string]any{}
+				for _, n := range asList(a["nodes"]) {
+					an[asStr(n.(M)["id"])] = n
+				}
+				b2 := Normalize(b).(M)
+				if asStr(o["share"]) == "self" {
+					b2 = Normalize(a).(M)
+				} else {
+					for i, n := range asList(b2["nodes"]) {
+						if x, ok := an[asStr(n.(M)["id"])]; ok {
+							asList(b2["nodes"])[i] = Normalize(x)
+						}
+					}
+				}
+				o["b"] = b2
+			}
+			ops = append(ops, o)
 		case 8:
 			ops = append(ops, M{"op": "alias", "what": g.Pick([]string{"union2", "intersect2"}), "a": a, "b": b, "c": g.NodeList(o2)})
 		default:
